@@ -21,14 +21,14 @@ CHECKS = {
     "C11": ("exploration", "Bounded: per-character escape table exhaustive on 0..0x24F, string and grammar round trips on critical alphabets.", NOTE_BND, BND, "6/C11"),
     "C12": ("other", "Bounded: post-conditions of expand_tree / mutate over seeds and a choice oracle. Proved (supporting): parent_or_child.", NOTE_MIX, MIX, "6/C12"),
     "C13": ("other", "Bounded: post-condition of insert_tree for all method subsets. Proved (supporting): is_prefix.", NOTE_MIX, MIX, "6/C13"),
-    "C14": ("exploration", "Bounded only: exact length of create_fixed_length_tree, exact count and no reachable needle after count() completion.", NOTE_BND, BND, "6/C14"),
+    "C14": ("exploration", "Bounded only: exact length of create_fixed_length_tree, exact count and no reachable needle after count() completion, and the numeric requirement (the <int> tree built for a Z3 model value has that decimal value: through solve() on fixed-width signed numerals and by calling ISLaSolver.extract_model_value directly).", NOTE_BND, BND, "6/C14"),
     "C15": ("other", "Proved: merge_two_intervals and the fold step of merge_intervals preserve the union and the normal form, with the induction lemmas for the fold. Bounded: numeric_intervals_from_regex vs an independent matcher; compress_concatenation_elements language equality.", NOTE_MIX, MIX, "6/C15"),
     "C16": ("other", "Proved for all trees/paths: path helpers, list_set/list_del (whole view), nth_occ, trie key encode/decode + lemmas, the cached open-flag representation invariant through __init__, is_open, is_complete and replace_path, is_valid_path == every index in range, get_subtree returns the node the path leads to. Bounded: operation histories on trees with up to 40 children (strings, search, trie views, hashes, replace).", NOTE_MIX, MIX, "6/C16"),
     "C17": ("other", "Proved on the AST: to_json/__getstate__ assign nothing reachable from their parameters. Bounded: cache/serialise histories, SMT literal pickling, CLI JSON.", NOTE_MIX, MIX, "6/C17"),
     "C18": ("other", "Proved for all inputs from the real text of ISLaSolver.check/parse/repair: check(str) is true exactly when the string is a member and its parsed tree is judged TRUE, parse raises SyntaxError exactly for non-members and SemanticError exactly for members judged FALSE, check(tree) agrees with check(str) on the parser's tree, repair returns an accepted input unchanged, mutate returns only trees that repair returned (hence judged TRUE, over repair's assumed general post-condition), no other exception escapes -- over ASSUMED contracts of EarleyParser.parse (C10) and evaluate (C03). Bounded: the same relations end-to-end and mutate/repair results against independent oracles.", NOTE_MIX, MIX, "6/C18"),
     "C19": ("other", "Bounded: exit-code/output contract of cli.main over generated file sets (in-process and as subprocess), incl. malformed grammars by file and by option, and the printed output of solve saved to a file and checked. Proved (one fragment): get_input_string removes exactly one trailing line break from an input file's content and nothing else, without IndexError on an empty file.", NOTE_MIX, MIX, "6/C19"),
     "C20": ("other", "Proved for all closed arguments from the real text of isla_predicates.crop/just/count/octal_to_dec_both_trees: the verdict is TRUE exactly when the argument already has the requested width (crop: needs no cropping), every proposed replacement has exactly the requested width, keeps the argument's nonterminal and is the padded/cropped argument; count is TRUE exactly when the needle count equals the number; octal_to_decimal on two trees is TRUE exactly when the numbers agree -- over ASSUMED contracts of the parser (C10), str(tree), int(str) and str.ljust/rjust. Also call shape of the octal_to_dec chain. Bounded, exhaustive small scope: the same predicates end-to-end incl. the conversion branches of octal_to_decimal and count's tree completion.", NOTE_MIX, MIX, "6/C20"),
-    "C21": ("exploration", "Bounded only: solutions for the shipped formalizations pass independent validators.", NOTE_BND, BND, "6/C21"),
+    "C21": ("exploration", "Bounded only: solutions for the shipped formalizations (CSV, XML, reST, simple TAR) pass independent validators, under the evaluation scripts' settings, the test-suite's settings and the solver's own default settings (quick: up to 1 500 reST documents per instance).", NOTE_BND, BND, "6/C21"),
     "C22": ("exploration", "Bounded only: equal solution sequences in pairs of fresh processes with equal hash seed and random seed; static scan for nondeterminism sources.", NOTE_BND, BND, "6/C22"),
 }
 NOT_YET = {}
